@@ -26,6 +26,9 @@ THEOREMS = ['PV.C20.' + t for t in [
   'imm12_sign_extended', 'imm13_sign_extended',
   'step_ok', 'init_ok', 'x0_step', 'x0_run', 'run_ok', 'shift_low5', 'pc_next',
   'mem_little_endian', 'load_store', 'lw_after_sw', 'run_out_prefix', 'run_count',
+  'exec_xcel_undefined', 'execX_conservative', 'stepX_conservative', 'execX_cases', 'xcel_read_after_write',
+  'xcel_reg_stable', 'xcel_reg_init', 'xcel_access_frame', 'execX_ok', 'stepX_ok', 'initX_ok', 'runX_ok',
+  'x0_stepX', 'x0_runX', 'runX_out_prefix', 'runX_count',
   'cksum_fl_eq_spec', 'cksum_rtl_eq_spec', 'cksum_agree', 'cksum_units_agree', 'cksum_msg_agree',
   'unpack_pack_words', 'cksum_lt']] + c20_pipe.THEOREMS
 THEOREM_MODULE = dict(c20_pipe.THEOREM_MODULE)
@@ -33,6 +36,8 @@ TRUSTED = [
   'Model/TinyRV0.lean is a reading of tinyrv0-isa.md (decode table, sign-extended I/S/B immediates, little-endian '
   'byte memory, x0 = 0, mngr2proc dequeue / proc2mngr enqueue, reset vector 0x200); CSRR/CSRW are taken as the '
   'pseudo-instructions csrrs rd,csr,x0 / csrrw x0,csr,rs1 (unused register field must be 0, as in the repo\'s encoding table)',
+  'accelerator CSRs 0x7E0..0x7FF: the ISA document leaves their meaning to the accelerator; StateX / execX / runX model the tutorial\'s '
+  'NullXcel.py as a function (ONE register xr0 behind all 32 numbers, 0 at power-on); its request queue / handshake is not modelled',
   'ProcFL / ProcCL and the FL/CL/RTL adapters are related to the ISA model by this run\'s differential execution only; the '
   'five-stage ProcRTL is modelled cycle by cycle in Model/Pipe.lean (theorems in Props/C20p.lean, see c20_pipe.TRUSTED for what '
   'is proved about it and what still rests on differential execution)',
@@ -43,8 +48,8 @@ TRUSTED = [
 ] + c20_pipe.TRUSTED
 ASSUMPTIONS = [
   'programs are TinyRV0 programs the ISA defines completely: aligned accesses below 1MB, stores only to the data window '
-  '0x2000..0x20ff, CSRs mngr2proc (read) / proc2mngr (write) only, termination by running into the zero word after the last '
-  'instruction; accelerator CSRs (xcelregXX) and illegal words are outside the model and the generator',
+  '0x2000..0x20ff, CSRs mngr2proc (read) / proc2mngr (write) / xcelreg00..31 (read and write, NullXcel attached as in the repo\'s '
+  'TestHarness), termination by running into the zero word after the last instruction; illegal words are outside the model and the generator',
   'commit_inst: ProcFL and ProcRTL commit every instruction; ProcCL does not commit `nop` (it never reaches its W stage), '
   'so its count is compared with (instruction count - executed nops)',
 ] + c20_pipe.ASSUMPTIONS
@@ -52,7 +57,8 @@ RULE = ('structured random programs (straight-line blocks, forward bne over bloc
         'reuse of the last 3 destinations, load-use, store->load same/neighbouring word, pointers through memory, far-base '
         'addressing with negative offsets, csrr/csrw in loops, register-file dump epilogue) + far-branch family (taken bne with '
         '|offset| 2044..4096 bytes both directions over filler) + false-producer family (sw / bne whose inst[11:7] immediate bits equal a source register '
-        'of the next 1-3 instructions) + directed boundary-immediate programs, rejection-sampled with the ISA '
+        'of the next 1-3 instructions) + accelerator family (xcelreg writes / reads next to csrw proc2mngr, csrr mngr2proc, loads, stores, '
+        'consumers; 1-cycle memory with stalling sink / source) + directed boundary-immediate programs, rejection-sampled with the ISA '
         'oracle; x timing configs (src/sink delay 0-5, stall prob {0,.3,.6}, latency 1-5) x {FL,CL,RTL}; '
         'non-trivial = program stores and takes a backward branch or runs >= 60 instructions; distinct = (program text, inputs, timing, level)')
 
@@ -213,6 +219,12 @@ DIRECTED = [
    "sw x2, 8(x1)\naddi x6, x6, 1\nsw x8, 12(x1)\nlw x10, 12(x1)\ncsrw proc2mngr, x10\nnop\nnop\nnop\n"
    "bne x2, x2, -4\nnop\nsrl x11, x2, x29\nsll x12, x29, x2\ncsrw proc2mngr, x11\ncsrw proc2mngr, x12\nnop\nnop\n"
    "sw x0, 8(x1)\nnop\nbne x2, x8, T\naddi x6, x6, 64\nT:\ncsrw proc2mngr, x6\n", [0x2000, 7, 100, 50, 3]),
+  # accelerator register: read right behind back-to-back csrw proc2mngr (response buffered while the sink is busy),
+  # write/read through different register numbers, read-use, csrr x0
+  ("addi x5, x0, 77\ncsrw 0x7e0, x5\ncsrw proc2mngr, x5\ncsrw proc2mngr, x5\ncsrr x6, 0x7e3\ncsrw proc2mngr, x6\n"
+   "csrr x7, mngr2proc\ncsrw 0x7ff, x7\ncsrw proc2mngr, x7\ncsrw proc2mngr, x6\ncsrw proc2mngr, x5\ncsrr x8, 0x7e0\nadd x9, x8, x8\n"
+   "csrr x0, 0x7f0\ncsrw proc2mngr, x8\ncsrw proc2mngr, x9\ncsrw 0x7e1, x0\ncsrw proc2mngr, x9\ncsrr x10, 0x7e1\ncsrw proc2mngr, x10\n",
+   [0xcafe1234]),
   # pointer chasing: each load feeds the next address
   ("csrr x1, mngr2proc\nsw x1, 0(x1)\nlw x2, 0(x1)\nlw x2, 0(x2)\nlw x2, 0(x2)\naddi x2, x2, 8\nsw x2, 0(x1)\nlw x1, 0(x1)\nsw x1, 0(x1)\nlw x5, 0(x1)\n"
    "csrw proc2mngr, x5\ncsrw proc2mngr, x2\n", [0x2020]),
@@ -243,9 +255,9 @@ def model_run_line(pr, fuel):
 
 def parse_model(reply):
   t = leanio.parse_sexp(reply)
-  stop, icount, pc, out, regs, mem = t
+  stop, icount, pc, out, regs, mem, xr0 = t
   return dict(stop=stop, icount=int(icount), pc=int(pc), out=[int(x) for x in out], regs=[int(x) for x in regs],
-              mem={int(a): int(w) for a, w in mem})
+              mem={int(a): int(w) for a, w in mem}, xr0=int(xr0))
 
 def model_image(m):
   img = bytearray(1 << 20)
@@ -271,7 +283,7 @@ def eval_program(ck, pr, model_reply, cfgs, fuel):
   mimg = model_image(m)
   # model vs direct oracle (both are readings of the ISA document): a difference is a broken correspondence
   model_ok = (m['out'] == ref['out'] and m['icount'] == ref['icount'] and m['stop'] == ref['stop'] and m['pc'] == ref['pc']
-              and m['regs'] == ref['regs'] and mimg == ref['mem'])
+              and m['regs'] == ref['regs'] and mimg == ref['mem'] and m['xr0'] == ref['xr0'])
   for cfg in cfgs:
     for level in ('FL', 'CL', 'RTL'):
       case = {'part': 'program', 'text': pr['text'], 'inp': pr['inp'], 'cfg': cfg, 'level': level}
@@ -296,7 +308,7 @@ def eval_program(ck, pr, model_reply, cfgs, fuel):
                       'oracle': 'Python TinyRV0 interpreter written from tinyrv0-isa.md (c20_util.isa_run)'})
       elif not model_ok:
         ck.disagreement('Model.run≈Proc' + level, case,
-                        {'out': m['out'][:200], 'icount': m['icount'], 'stop': m['stop'], 'pc': m['pc'], 'regs': m['regs'],
+                        {'out': m['out'][:200], 'icount': m['icount'], 'stop': m['stop'], 'pc': m['pc'], 'regs': m['regs'], 'xr0': m['xr0'],
                          'mem_diff_vs_impl': first_diff(mimg, r['mem'])},
                         {'out': r['out'][:200], 'commits': r['commits']})
   for k, v in ref['mix'].items(): ck.hist('dynamic_mix', k, v)
@@ -314,7 +326,7 @@ def check_assembled(ck, pr, enc_replies):
     elif e != str(a):
       ck.disagreement('Model.encode≈tinyrv0_encoding.assemble', case, e, str(a))
 
-def check_programs(ck, nprog, ncfg, sizes, fuel, nfar=0, far_ncfg=1, nalias=0):
+def check_programs(ck, nprog, ncfg, sizes, fuel, nfar=0, far_ncfg=1, nalias=0, nxcel=0):
   rng = ck.rng
   progs = [directed_program(t, i, rng) for t, i in DIRECTED]
   for _ in range(nfar):                              # far-branch family: taken bne with |offset| around / above 2048 bytes
@@ -323,6 +335,10 @@ def check_programs(ck, nprog, ncfg, sizes, fuel, nfar=0, far_ncfg=1, nalias=0):
     progs.append(p)
   for _ in range(nalias):                            # false-producer family (sw / bne immediate bits aliasing a source register)
     p = u.gen_program(rng, rng.choice([90, 130, 170]), fuel, family='alias'); p['tight_cfgs'] = 2
+    progs.append(p)
+  for _ in range(nxcel):                             # accelerator family; timing: 1-cycle memory, sink and source that stall
+    p = u.gen_program(rng, rng.choice([60, 100, 140]), fuel, family='xcel')
+    p['cfgs'] = [[rng.randint(0, 5), rng.randint(1, 5), 0, 1], rand_cfg(rng)]
     progs.append(p)
   for _ in range(nprog):
     progs.append(u.gen_program(rng, rng.choice(sizes), fuel))
@@ -337,7 +353,8 @@ def check_programs(ck, nprog, ncfg, sizes, fuel, nfar=0, far_ncfg=1, nalias=0):
   enc = ck.drv('rv').batch(enc_lines)
   for p, rep, (a, b) in zip(progs, replies, spans):
     if p['insts']: check_assembled(ck, p, enc[a:b])
-    if p.get('tight_cfgs'): cfgs = [rand_cfg(rng, tight=(k == 0)) for k in range(p['tight_cfgs'])]
+    if p.get('cfgs'): cfgs = p['cfgs']
+    elif p.get('tight_cfgs'): cfgs = [rand_cfg(rng, tight=(k == 0)) for k in range(p['tight_cfgs'])]
     else: cfgs = [rand_cfg(rng, tight=(k == 0 and rng.random() < 0.7)) for k in range(ncfg)]
     eval_program(ck, p, rep, cfgs, fuel)
     if len(ck.violations) > 20: break
@@ -391,8 +408,8 @@ def run(ck):
   check_encoding(ck, 400 if quick else 6000)
   exhaustive_decode(ck, quick)
   check_cksum(ck, 150 if quick else 3000)
-  if quick: check_programs(ck, 30, 2, [25, 50, 80, 120], 4000, nfar=3, far_ncfg=1, nalias=4)
-  else: check_programs(ck, 400, 2, [20, 40, 60, 90, 140, 200], 6000, nfar=40, far_ncfg=2, nalias=40)
+  if quick: check_programs(ck, 20, 2, [25, 50, 80, 120], 4000, nfar=3, far_ncfg=1, nalias=4, nxcel=4)
+  else: check_programs(ck, 380, 2, [20, 40, 60, 90, 140, 200], 6000, nfar=40, far_ncfg=2, nalias=40, nxcel=40)
   c20_pipe.run(ck)
 
 def replay(ck, data):
